@@ -11,9 +11,6 @@ import (
 
 // ---- LinkMC.tla: the layout space inside TLC, bound to the real decorator ----
 
-func linkMCCfg(clauses, coms int, emit string) string {
-	return fmt.Sprintf("CONSTANTS MaxClauses = %d MaxComs = %d EmitHist = \"%s\"\nINIT Init\nNEXT Next\nINVARIANTS NoPanic AllAttached RoundTrip Emit\nCHECK_DEADLOCK FALSE\n", clauses, coms, emit)
-}
 
 type mcEntry struct {
 	E bool
@@ -26,7 +23,7 @@ type mcLayout struct {
 }
 
 // mcSource writes a LinkMC layout out as Go source.
-func mcSource(l mcLayout) string {
+func mcSource(l mcLayout, block bool) string {
 	var lines []string
 	n := 0
 	com := func(line bool) string {
@@ -58,6 +55,20 @@ func mcSource(l mcLayout) string {
 			}
 		}
 	}
+	if block {
+		lines = append(lines, "package p", "", "func f() {")
+		gap(l.Gaps[0])
+		for i, two := range l.Shape {
+			if two {
+				lines = append(lines, "\tfoo(a,", "\t\tb)")
+			} else {
+				lines = append(lines, "\tx()")
+			}
+			gap(l.Gaps[i+1])
+		}
+		lines = append(lines, "}")
+		return strings.Join(lines, "\n") + "\n"
+	}
 	lines = append(lines, "package p", "", "func f() {", "\tswitch {")
 	gi := 0
 	gap(l.Gaps[gi])
@@ -78,22 +89,22 @@ func mcSource(l mcLayout) string {
 
 // mcCompare compares the fragment list LinkMC built for a layout with the real one (the part
 // between the Start and the End of the switch statement).
-func mcCompare(want [][]interface{}, got []decorator.VerifFragment) string {
+func mcCompare(want [][]interface{}, got []decorator.VerifFragment, typ string) string {
 	lo, hi := -1, -1
 	for i, f := range got {
-		if f.Type == "SwitchStmt" && f.K == "dec" && f.Name == "Start" && lo < 0 {
+		if f.Type == typ && f.K == "dec" && f.Name == "Start" && lo < 0 {
 			lo = i
 		}
-		if f.Type == "SwitchStmt" && f.K == "dec" && f.Name == "End" {
+		if f.Type == typ && f.K == "dec" && f.Name == "End" {
 			hi = i
 		}
 	}
 	if lo < 0 || hi < 0 {
-		return "no switch statement in the real fragment list"
+		return "no " + typ + " in the real fragment list"
 	}
 	real := got[lo : hi+1]
 	if len(real) != len(want) {
-		return fmt.Sprintf("the real list has %d fragments for the switch statement, LinkMC built %d", len(real), len(want))
+		return fmt.Sprintf("the real list has %d fragments for the construct, the model built %d", len(real), len(want))
 	}
 	off := real[0].Node - 1
 	for i, w := range want {
@@ -120,24 +131,31 @@ func mcCompare(want [][]interface{}, got []decorator.VerifFragment) string {
 }
 
 func c01LinkMC(c *Ctx) bool {
+	return c01LinkMCOf(c, "LinkMC", "MaxClauses", "SwitchStmt", false) && c01LinkMCOf(c, "LinkMCB", "MaxStmts", "BlockStmt", true)
+}
+
+func c01LinkMCOf(c *Ctx, module, sizeConst, typ string, block bool) bool {
 	cl, co := 2, 1
 	if !c.Quick() {
 		co = 2
 	}
+	linkMCCfg := func(clauses, coms int, emit string) string {
+		return fmt.Sprintf("CONSTANTS %s = %d MaxComs = %d EmitHist = \"%s\"\nINIT Init\nNEXT Next\nINVARIANTS NoPanic AllAttached RoundTrip Emit\nCHECK_DEADLOCK FALSE\n", sizeConst, clauses, coms, emit)
+	}
 	// (M) every layout within the bound: no panic state, every comment attached once, skeleton reproduced
-	mc, err := RunTLC(TLCRun{Module: "LinkMC", Cfg: linkMCCfg(cl, co, "none"), Workers: 12, Timeout: 30 * time.Minute})
+	mc, err := RunTLC(TLCRun{Module: module, Cfg: linkMCCfg(cl, co, "none"), Workers: 12, Timeout: 30 * time.Minute})
 	if err != nil || !mc.OK() {
 		if mc != nil && mc.Violated != "" {
-			c.Fail(Finding{Sig: "linkmc-" + mc.Violated, Input: "LinkMC", What: "LinkMC.tla: invariant " + mc.Violated + " fails on a generated layout:\n" + truncate(mc.ErrorText, 1500), Replay: obj{"kind": "none"}})
+			c.Fail(Finding{Sig: "linkmc-" + mc.Violated, Input: module, What: module + ".tla: invariant " + mc.Violated + " fails on a generated layout:\n" + truncate(mc.ErrorText, 1500), Replay: obj{"kind": "none"}})
 			return true
 		}
 		c.Infra("TLC model check of LinkMC failed: " + errText(mc, err))
 		return false
 	}
 	c.TLC(mc)
-	c.Set("linkmc_bounds", fmt.Sprintf("switch statements of <= %d clauses (with / without a statement), <= %d comments (own line at clause or body indentation, line or block; trailing) in any gap, every blank-line pattern", cl, co))
+	c.Set(strings.ToLower(module)+"_bounds", fmt.Sprintf("%s: <= %d clauses / statements, <= %d comments (own line at either indentation, line or block; trailing) in any gap, every blank-line pattern", module, cl, co))
 	// (R) spec -> code: every layout with <= 1 comment with its fragment list, every layout of the bound as text
-	small, err := RunTLC(TLCRun{Module: "LinkMC", Cfg: linkMCCfg(cl, 1, "frags"), Workers: 8, Timeout: 30 * time.Minute})
+	small, err := RunTLC(TLCRun{Module: module, Cfg: linkMCCfg(cl, 1, "frags"), Workers: 8, Timeout: 30 * time.Minute})
 	if err != nil || !small.OK() {
 		c.Infra("TLC emission (LinkMC, frags) failed: " + errText(small, err))
 		return false
@@ -145,7 +163,7 @@ func c01LinkMC(c *Ctx) bool {
 	c.TLC(small)
 	behs := small.Payloads("BEH ")
 	if co > 1 {
-		big, err := RunTLC(TLCRun{Module: "LinkMC", Cfg: linkMCCfg(cl, co, "layouts"), Workers: 8, Timeout: 30 * time.Minute})
+		big, err := RunTLC(TLCRun{Module: module, Cfg: linkMCCfg(cl, co, "layouts"), Workers: 8, Timeout: 30 * time.Minute})
 		if err != nil || !big.OK() {
 			c.Infra("TLC emission (LinkMC, layouts) failed: " + errText(big, err))
 			return false
@@ -166,7 +184,7 @@ func c01LinkMC(c *Ctx) bool {
 			c.Infra("bad LinkMC layout: " + err.Error())
 			return false
 		}
-		src := mcSource(l)
+		src := mcSource(l, block)
 		if !isCanonical([]byte(src)) {
 			continue // gofmt would lay this out differently: outside C01's quantifier
 		}
@@ -179,8 +197,8 @@ func c01LinkMC(c *Ctx) bool {
 				return false
 			}
 			compared++
-			if msg := mcCompare(l.Frags, frags); msg != "" {
-				c.Fail(Finding{Sig: "linkmc-fragments-differ", Input: "layout|" + shortHash(src), What: "the fragment list LinkMC.tla builds for this layout is not the decorator's: " + msg + "\n" + src, Replay: obj{"kind": "c01snip", "src": src}})
+			if msg := mcCompare(l.Frags, frags, typ); msg != "" {
+				c.Fail(Finding{Sig: "linkmc-fragments-differ", Input: "layout|" + shortHash(src), What: "the fragment list " + module + ".tla builds for this layout is not the decorator's: " + msg + "\n" + src, Replay: obj{"kind": "c01snip", "src": src}})
 				continue
 			}
 		}
@@ -194,9 +212,9 @@ func c01LinkMC(c *Ctx) bool {
 			items = append(items, it)
 		}
 	}
-	c.Set("linkmc_layouts_emitted", len(behs))
-	c.Set("linkmc_layouts_canonical", canonicalN)
-	c.Set("linkmc_fragment_lists_compared", compared)
+	c.Set(strings.ToLower(module)+"_layouts_emitted", len(behs))
+	c.Set(strings.ToLower(module)+"_layouts_canonical", canonicalN)
+	c.Set(strings.ToLower(module)+"_fragment_lists_compared", compared)
 	if canonicalN == 0 || compared == 0 {
 		c.Infra("no LinkMC layout is canonical Go")
 		return false
